@@ -15,6 +15,8 @@ Function Manifest for this Module
 from struct import pack
 
 import cryptography.exceptions
+import cryptography.hazmat.backends
+import cryptography.hazmat.primitives.hashes
 from cryptography.hazmat.primitives.asymmetric import ed25519
 
 from .common import (
